@@ -734,7 +734,7 @@ pub fn c20(tier: Tier) -> i32 {
         }
         // blank lines before and after the records (LF and CRLF, with and without the last terminator):
         // bytes that remain in the buffer after the last record without being another item
-        for f in rec_files(format, 2, &[0, 1], &[1, 2, 3, 4], false) {
+        for f in rec_files(format, 2, &[0, 1, 2, 3], &[1, 2, 3, 4], false) {
             own_inputs.push((format, f.bytes()));
         }
     }
@@ -745,6 +745,50 @@ pub fn c20(tier: Tier) -> i32 {
         let caps: Vec<usize> = [3usize, 8, 16, data.len() + 2].to_vec();
         for cap in caps {
             // fault = None, or one transient error at source call 0..5
+            // a source that pauses once (Ok(0) at offset p, data afterwards): whatever the reader makes of
+            // the early end, an owned iterator that has reported the end must go on reporting it
+            for pause in 0..data.len() {
+                let mut problems: Vec<String> = vec![];
+                macro_rules! paused {
+                    ($m:ident) => {{
+                        for into in [false, true] {
+                            let mut src = Src::new(rc.clone(), Chunk::All, IntPat::None, None);
+                            src.pause_at = Some(pause);
+                            let mut rdr = seq_io::$m::Reader::with_capacity(src, cap);
+                            let steps: Vec<bool> = if into {
+                                let mut it = rdr.into_records();
+                                (0..12).map(|_| it.next().is_some()).collect()
+                            } else {
+                                let mut it = rdr.records();
+                                (0..12).map(|_| it.next().is_some()).collect()
+                            };
+                            if let Some(e) = steps.iter().position(|s| !*s) {
+                                if let Some(later) = steps[e..].iter().position(|s| *s) {
+                                    problems.push(format!("{} {}: the end was reported at step {} but step {} yields an item again (source paused once at offset {})", stringify!($m), if into { "into_records()" } else { "records()" }, e, e + later, pause));
+                                }
+                            }
+                        }
+                    }};
+                }
+                let res = catch_unwind(AssertUnwindSafe(|| match format {
+                    Format::Fasta => paused!(fasta),
+                    Format::Fastq => paused!(fastq),
+                }));
+                if let Err(e) = res {
+                    problems.push(format!("panic with a source pausing at offset {}: {}", pause, crate::rdr::panic_msg(e)));
+                }
+                l.evals += 1;
+                l.nontrivial += 1;
+                if let Some(p) = problems.first() {
+                    l.violation(Violation {
+                        property: "C20".into(),
+                        sig: format!("{}|paused-source|{}", format.name(), if p.starts_with("panic") { "panic" } else { "item after the end" }),
+                        detail: format!("input {:?} cap {}: {}", esc(data), cap, p),
+                        weight: (data.len() * 100_000 + cap.min(99_999)) as u64,
+                        replay: json!({"kind": "iters", "format": format.name(), "input": data, "input_escaped": esc(data), "cap": cap, "source_pauses_at": pause}),
+                    });
+                }
+            }
             // no failure, one transient failure at source call 0..4, or two at calls a < b <= 6
             let mut fault_sets: Vec<(Option<usize>, Option<usize>)> = vec![(None, None)];
             fault_sets.extend((0..5).map(|a| (Some(a), None)));
@@ -939,7 +983,7 @@ pub fn c20(tier: Tier) -> i32 {
         Report {
             property: "C20".into(),
             tier: tier.name().into(),
-            rule: format!("every FASTA record with m = 0..{} sequence lines over the line menu {{x, empty, xy, x<CR>y}} x LF/CRLF x final terminator x followed by another record or not, obtained from a record set under 3 capacities: ALL 2^(m+2) sequences of next/next_back steps on seq_lines() with len()/size_hint() checked after every step, items, meeting ends, sticky end; adaptor menu (enumerate().rev(), rev().enumerate(), zip, skip(0..n+1), collect, rposition, len) on the iterator after every (front, back) prefix; RecordSetIter (both formats) size hint + fused, count(), last(), nth(j) and skip(j) for j = 0..len+1 with the state they leave behind, also on ONE set reused over all batches (plain loop; exact(3),exact(1),...; exact(2),(3),(1),...) at every (third) capacity so that later, smaller batches carry stale entries; RecordsIter / RecordsIntoIter end sticky incl. after an error (FASTQ defect family, {} files); records()/into_records() size_hint() before every one of 10 steps brackets the items still to come, skip(k), nth(k), count() against plain stepping on valid and invalid inputs and inputs with 1..4 leading/trailing blank lines (LF/CRLF), also with one transient source error at call 0..4 or two at calls a < b <= 6 (the end, once reported, stays reported)", max_lines, fq.len()),
+            rule: format!("every FASTA record with m = 0..{} sequence lines over the line menu {{x, empty, xy, x<CR>y}} x LF/CRLF x final terminator x followed by another record or not, obtained from a record set under 3 capacities: ALL 2^(m+2) sequences of next/next_back steps on seq_lines() with len()/size_hint() checked after every step, items, meeting ends, sticky end; adaptor menu (enumerate().rev(), rev().enumerate(), zip, skip(0..n+1), collect, rposition, len) on the iterator after every (front, back) prefix; RecordSetIter (both formats) size hint + fused, count(), last(), nth(j) and skip(j) for j = 0..len+1 with the state they leave behind, also on ONE set reused over all batches (plain loop; exact(3),exact(1),...; exact(2),(3),(1),...) at every (third) capacity so that later, smaller batches carry stale entries; RecordsIter / RecordsIntoIter end sticky incl. after an error (FASTQ defect family, {} files); records()/into_records() size_hint() before every one of 10 steps brackets the items still to come, skip(k), nth(k), count() against plain stepping on valid and invalid inputs and inputs with 1..4 leading/trailing blank lines (LF/CRLF), also with one transient source error at call 0..4 or two at calls a < b <= 6 (the end, once reported, stays reported), and with a source that pauses once (Ok(0)) at every offset and delivers afterwards", max_lines, fq.len()),
             exhaustive: true,
             assumptions: vec!["line contents are drawn from a menu; the iterator logic depends only on the number of lines".into()],
             extra: json!({"states_note": "states = (record, consumed-front, consumed-back) triples; transitions = iterator steps executed"}),
